@@ -88,7 +88,7 @@ fn view_canon(v: &ElementView) -> String {
 
 #[derive(Clone, Debug)]
 pub enum Op {
-    Add { name: String, attrs: Vec<String>, text: bool, multiple: bool },
+    Add { name: String, attrs: Vec<String>, text: bool, multiple: bool, nested: bool },
     SetOptional(String),
     Remove(String),
     MergeAttr(Vec<(bool, String)>),
@@ -112,7 +112,7 @@ impl Ev {
     }
     fn to_json(&self) -> Value {
         let op = match &self.op {
-            Op::Add { name, attrs, text, multiple } => json!({"add": name, "attrs": attrs, "text": text, "multiple": multiple}),
+            Op::Add { name, attrs, text, multiple, nested } => json!({"add": name, "attrs": attrs, "text": text, "multiple": multiple, "nested": nested}),
             Op::SetOptional(n) => json!({"set_child_optional": n}),
             Op::Remove(n) => json!({"remove_child": n}),
             Op::MergeAttr(l) => json!({"merge_attr": l.iter().map(|(m, a)| json!([if *m {"M"} else {"O"}, a])).collect::<Vec<_>>()}),
@@ -132,6 +132,7 @@ impl Ev {
                 attrs: o["attrs"].as_array()?.iter().filter_map(|x| x.as_str().map(|s| s.to_string())).collect(),
                 text: o["text"].as_bool()?,
                 multiple: o["multiple"].as_bool()?,
+                nested: o["nested"].as_bool().unwrap_or(false),
             }
         } else if let Some(n) = o.get("set_child_optional") {
             Op::SetOptional(n.as_str()?.to_string())
@@ -162,9 +163,14 @@ pub struct State {
     mheld: Option<MNode>,
 }
 
-fn new_leaf(name: &str, attrs: &[String], text: bool, multiple: bool) -> (El, MNode) {
+fn new_leaf(name: &str, attrs: &[String], text: bool, multiple: bool, nested: bool) -> (El, MNode) {
     let mut e = Element::new(name.to_string(), attrs.to_vec());
     let mut m = MNode::new(name, &attrs.iter().map(|s| s.as_str()).collect::<Vec<_>>());
+    if nested {
+        // the new element brings a child of its own
+        e.add_unique_child(Element::new("a".to_string(), vec!["y".to_string()]));
+        m.children.push((true, MNode::new("a", &["y"])));
+    }
     if text {
         e.text = Some("t".to_string());
         m.text = true;
@@ -222,7 +228,7 @@ fn apply(s: &State, ev: &Ev) -> (State, Vec<(String, String)>) {
         }
     };
     // lookup must address the child with the given name (or nothing)
-    for n in ["a", "A", "b"] {
+    for n in ["a", "A", "ns:a", "r-a1", "b"] {
         let got = t.get_child(&n.to_string()).map(|c| (matches!(c, Necessity::Mandatory(_)), c.inner_t().name.clone()));
         let want = mt.child(n).map(|(m, c)| (*m, c.name.clone()));
         if got != want {
@@ -230,8 +236,8 @@ fn apply(s: &State, ev: &Ev) -> (State, Vec<(String, String)>) {
         }
     }
     match &ev.op {
-        Op::Add { name, attrs, text, multiple } => {
-            let (leaf, mleaf) = new_leaf(name, attrs, *text, *multiple);
+        Op::Add { name, attrs, text, multiple, nested } => {
+            let (leaf, mleaf) = new_leaf(name, attrs, *text, *multiple, *nested);
             let before = canon::k_full(t);
             let present = mt.child(name).is_some();
             t.add_unique_child(leaf);
@@ -367,12 +373,9 @@ fn judge_state(s: &State, replay: &Value, rank: u64, summary_prefix: &str) -> Ve
 }
 
 pub fn events() -> Vec<Ev> {
-    // a and A have the same PascalCase form and colliding field identifiers
-    let names = ["a", "A"];
-    let mut targets: Vec<Vec<String>> = vec![vec![]];
-    for n in names {
-        targets.push(vec![n.to_string()]);
-    }
+    // a / A: same PascalCase form, colliding field identifiers; ns:a: same local name as a;
+    // r-a1: its struct name equals the numbered name of A below the root r
+    let targets: Vec<Vec<String>> = vec![vec![], vec!["a".to_string()]];
     let lists: Vec<Vec<(bool, String)>> = vec![
         vec![],
         vec![(true, "x".into())],
@@ -382,17 +385,23 @@ pub fn events() -> Vec<Ev> {
     ];
     let mut out = Vec::new();
     for path in targets {
-        for n in names {
-            for (attrs, text, multiple) in [
-                (vec![], false, false),
-                (vec!["x".to_string()], false, false),
-                (vec![], true, false),
-                (vec![], false, true),
-            ] {
-                out.push(Ev { path: path.clone(), op: Op::Add { name: n.into(), attrs, text, multiple } });
-            }
+        for (attrs, text, multiple, nested) in [
+            (vec![], false, false, false),
+            (vec!["x".to_string()], false, false, false),
+            (vec![], true, false, false),
+            (vec![], false, true, false),
+            (vec![], false, false, true),
+        ] {
+            out.push(Ev { path: path.clone(), op: Op::Add { name: "a".into(), attrs, text, multiple, nested } });
+        }
+        for n in ["A", "ns:a", "r-a1"] {
+            out.push(Ev { path: path.clone(), op: Op::Add { name: n.into(), attrs: vec![], text: false, multiple: false, nested: false } });
+        }
+        for n in ["a", "A", "ns:a"] {
             out.push(Ev { path: path.clone(), op: Op::SetOptional(n.into()) });
             out.push(Ev { path: path.clone(), op: Op::Remove(n.into()) });
+        }
+        for n in ["a", "A"] {
             out.push(Ev { path: path.clone(), op: Op::Take(n.into()) });
         }
         out.push(Ev { path: path.clone(), op: Op::PutBack });
@@ -561,7 +570,7 @@ pub fn run(ctx: &Ctx) {
     }
     ctx.set(
         "rule",
-        json!("breadth-first search from Element::new(r, attrs) (attrs in {[], [x], [x,y]}) over the public mutators applied to the root or to a child reached with get_child_mut: add_unique_child (plain leaf / with attribute / with text / already multiple), set_child_optional, remove_child, merge_attr (five lists), set_multiple, text = Some/None; names {a, A} (same PascalCase form, colliding identifiers); take(n) = remove_child keeping the removed element, put_back = add_unique_child of the kept element. Every transition is executed on the real Element and on an ordered-map model; compared after every step: child-name uniqueness, (name, tag) sets, lookup and removal results, no-op of adding a present name, subtree preservation of set_child_optional; every state is rendered (both presets, both sort options), checked for well-formedness as in C04 and its fields compared with the model"),
+        json!("breadth-first search from Element::new(r, attrs) (attrs in {[], [x], [x,y]}) over the public mutators applied to the root or to a child reached with get_child_mut: add_unique_child (plain leaf / with attribute / with text / already multiple), set_child_optional, remove_child, merge_attr (five lists), set_multiple, text = Some/None; names a, A (same PascalCase form, colliding identifiers), ns:a (same local name), r-a1 (equals a numbered struct name); add_unique_child also of an element that brings a child of its own; take(n) = remove_child keeping the removed element, put_back = add_unique_child of the kept element. Every transition is executed on the real Element and on an ordered-map model; compared after every step: child-name uniqueness, (name, tag) sets, lookup and removal results, no-op of adding a present name, subtree preservation of set_child_optional; every state is rendered (both presets, both sort options), checked for well-formedness as in C04 and its fields compared with the model"),
     );
 }
 
